@@ -1,10 +1,10 @@
 """C03: see harness/protocheck.py (run_c03) and Properties/C03.v."""
 import json
 
-from . import histcheck, protocheck
+from . import common, dirtmatrix, histcheck, protocheck
 
 LEVEL = "proof"
-PROFILES = [("REPAIR", 2), ("UNDO", 1), ("BASIC", 1)]
+PROFILES = [("REPAIR", 2), ("UNDO", 1), ("BASIC", 1), ("DIRTY", 2)]
 ORACLES = ["failkeeps"]
 
 
@@ -13,12 +13,17 @@ def run(ctx):
     # commands that fail on their own (no injected fault), also on branches moved by plain git
     histcheck.run_property(ctx, PROFILES, ORACLES, n_quick=32, n_thorough=500, nsteps=32 if ctx.quick() else 45,
                            own_oracle="c03")
+    # commands that fail for ordinary reasons in a work tree with local changes (real repository,
+    # no model): a failure leaves refs, index and every work-tree file as they were
+    dirtmatrix.check(ctx, common.build_stg(), "C03", "c03m")
 
 
 def replay(ctx, path):
     doc = json.load(open(path))
     if "scenario" in doc:
         return histcheck.replay_scenario(ctx, path, ORACLES)
+    if str(doc.get("obligation", "")).endswith("dirt-matrix"):
+        return dirtmatrix.replay(ctx, doc)
     print(json.dumps({k: doc.get(k) for k in ("why", "case", "setup", "cmd", "observer", "point", "nth", "schedule")}, indent=1))
     print("re-run the case with: ./check C03 (the corpus case above is part of every run)")
     return 1
